@@ -83,3 +83,32 @@ def _shape_run(self):
 
 
 Shape = _mk('Shape', __name__, fields=('kind', 'n'), extra={'run': _shape_run})
+
+
+class Unpicklable:
+    def __reduce__(self):
+        raise TypeError('this object refuses to be pickled')
+
+
+def _result_payload(kind: str, n: int):
+    """Result shapes for the save-path properties (C12 / C13)."""
+    if kind == 'small':
+        return ('small', n)
+    if kind == 'multi':                     # > 64 KiB frames under pickle protocol 4/5, JSON-able
+        return ['%04d' % i + 'x' * 1020 for i in range(n)]
+    if kind == 'unpicklable0':              # fails before anything is written
+        return Unpicklable()
+    if kind == 'unpicklable1':              # fails after one small frame
+        return ['a' * 100, Unpicklable()]
+    if kind == 'unpicklable-deep':          # fails after many frames have gone to the file
+        return ['%04d' % i + 'y' * 1020 for i in range(n)] + [Unpicklable()]
+    raise ValueError(kind)
+
+
+def _saver_run(self):
+    WORLD.rec('start', (type(self).__module__, type(self).__qualname__, self.cache_key))
+    return ('R', type(self).__qualname__, self.kind, self.n, WORLD.epoch, _result_payload(self.kind, self.n))
+
+
+Saver = _mk('Saver', __name__, fields=('kind', 'n'), extra={'run': _saver_run})
+JSaver = _mk('JSaver', __name__, fields=('kind', 'n'), extra={'run': _saver_run}, cache=JsonCache())
